@@ -50,6 +50,14 @@ def run(ctx):
     hs = []
     final_unreadable = 0
     rs = []
+    # fixed histories first: a quantity overridden with super() whose subclass part fails after the inherited part succeeded
+    H = realfuzz.History
+    hs.append(H("MassFunctionWDM", 0, [["read", ["dndm", "ngtm"]], ["update", {"alter_model": 2, "alter_params": 3}], ["read", ["dndm", "ngtm"]],
+                                       ["update", {"alter_params": 0}], ["read", ["dndm", "ngtm", "rho_gtm"]], ["update", {"alter_model": 0}], ["read", ["dndm", "ngtm"]]]))
+    hs.append(H("TransferWDM", 0, [["read", ["_unnormalised_lnT", "power"]], ["update", {"wdm_params": 4}], ["read", ["_unnormalised_lnT", "power"]],
+                                   ["update", {"wdm_params": 0}], ["read", ["_unnormalised_lnT", "power", "delta_k"]]]))
+    hs.append(H("MassFunctionWDM", 0, [["read", ["dndm"]], ["update", {"wdm_params": 4, "z": 1}], ["read", ["_unnormalised_lnT", "dndm"]],
+                                       ["update", {"wdm_params": 0}], ["read", ["_unnormalised_lnT", "sigma", "dndm"]]]))
     for cn in classes:
         for _ in range(per if cn != "Cosmology" else 2):
             hs.append(fault_history(r, cn))
@@ -73,7 +81,7 @@ def run(ctx):
                                       "replay": {"kind": "real-history", "history": hmin.to_json(), "script": realfuzz.describe(hmin),
                                                  "violation": vv, "tree": tree_hash()}})
     # the final "read everything after correction" must not raise at all
-    for h in hs[: (10 if quick else 60)]:
+    for h in hs[3: 3 + (10 if quick else 60)]:       # (the three fixed histories do not end with a full correction)
         bad = final_all_readable(h)
         if bad and not out["violations"]:
             final_unreadable += 1
